@@ -17,13 +17,13 @@ SPEC = dict(
                  'g++ 12 ASan/UBSan/LSan and valgrind memcheck report what they claim to report'],
     legs=[
         Leg('regress', 'h_pulse', 'asan', opts={'mode': 'regress'}, quick=1, thorough=1, workers=1, leaks=True, min_cases=1),
-        Leg('model', 'h_pulse', 'asan', opts={'mode': 'model'}, quick=48000, thorough=2400000, workers=16, leaks=True),
-        Leg('memcheck', 'h_pulse', 'plain', opts={'mode': 'model'}, quick=960, thorough=19200, workers=16, valgrind=True),
+        Leg('model', 'h_pulse', 'asan', opts={'mode': 'model'}, quick=32000, thorough=1600000, workers=16, leaks=True),
+        Leg('memcheck', 'h_pulse', 'plain', opts={'mode': 'model'}, quick=640, thorough=12800, workers=16, valgrind=True),
     ],
-    min_stats={'model': {'pulse_sweeps': 2000000, 'fires': 7000000, 'asks': 8000000, 'quiet_cycles_after_deferral': 200000, 'deferred_nodes': 1000000,
-                         'fired_exactly_at_their_time': 500000, 'actions_inside_callbacks': 4000000, 'cb:op_attach': 1000000, 'cb:op_detach': 300000,
-                         'cb:op_destroy': 250000, 'cb:op_invalidate_clear': 400000, 'cb:op_invalidate_keep': 400000, 'cb:op_invalidate_self': 300000,
-                         'cb:op_moved_a_node_of_the_callback_stack': 10000, 'cb:op_detached_a_node_of_the_callback_stack': 8000,
-                         'cycles_with_operations_between_recalculation_and_pulse': 500000, 'cases_with_100_or_more_nodes': 4000,
-                         'cases_with_a_single_node': 1000, 'cases_with_several_roots': 3000, 'cases_depth_7_or_8': 9000, 'max_nodes': 200, 'max_depth': 8}},
+    min_stats={'model': {'pulse_sweeps': 1300000, 'fires': 4700000, 'asks': 5500000, 'quiet_cycles_after_deferral': 140000, 'deferred_nodes': 800000,
+                         'fired_exactly_at_their_time': 360000, 'actions_inside_callbacks': 2700000, 'cb:op_attach': 690000, 'cb:op_detach': 210000,
+                         'cb:op_destroy': 175000, 'cb:op_invalidate_clear': 300000, 'cb:op_invalidate_keep': 300000, 'cb:op_invalidate_self': 220000,
+                         'cb:op_moved_a_node_of_the_callback_stack': 7000, 'cb:op_detached_a_node_of_the_callback_stack': 5000,
+                         'cycles_with_operations_between_recalculation_and_pulse': 330000, 'cases_with_100_or_more_nodes': 2500,
+                         'cases_with_a_single_node': 900, 'cases_with_several_roots': 2300, 'cases_depth_7_or_8': 6000, 'max_nodes': 200, 'max_depth': 8}},
 )
